@@ -67,7 +67,7 @@ Fixpoint run4 (c : cfg) (ips : list ip) (ms : list mac) (s : state) (a : amap) (
   | [] => ([m_views ips ms s], [r_views ips ms s a])     (* final views after the receive buffer was overwritten *)
   | p :: r =>
       let o := resolve s p in
-      let s1 := set_chan [] (fst (step c s o)) in
+      let s1 := set_chan [] (fst (pstep c s p)) in
       let a1 := ref_step c a o in
       let (x, y) := run4 c ips ms s1 a1 r in
       (m_views ips ms s1 :: x, r_views ips ms s1 a1 :: y)
